@@ -14,7 +14,19 @@ import re
 import vlib
 
 TAGS = "abcd"
-KINDS = ("Hmap", "Hflt", "Hconv", "Hclk", "Hskw", "HFmrk")
+KINDS = ("Hmap", "Hflt", "Hconv", "Hclk", "Hskw", "HFmrk", "Hbig")
+REV_LIMIT = 100   # search limit of Apply / Query / repair (tied in Tie/C18.lean); histories stay below it except Hbig
+
+# proposed known-finding lines can be assumed for a dry run: VERIF_C18_ASSUME_KNOWN=F18b[,F18a]
+if os.environ.get("VERIF_C18_ASSUME_KNOWN"):
+    _orig_load_known = vlib.load_known
+
+    def _load_known(prop):
+        res = _orig_load_known(prop)
+        if prop == "C18":
+            res += [{"id": i, "text": "(assumed for this run)"} for i in os.environ["VERIF_C18_ASSUME_KNOWN"].split(",")]
+        return res
+    vlib.load_known = _load_known
 
 
 # ----------------------------------------------------------------------------------------------------------
@@ -103,6 +115,16 @@ def g_history(rng, kind):
         ops, _ = g_ops(rng, n, nk, rng.randint(3, 16), 0.0, False, ts0=rng.choice([0, 10 ** 6]), explicit=True)
     elif kind == "Hskw":
         ops, _ = g_ops(rng, n, rng.choice([1, 2]), rng.randint(3, 10), 0.0, False, ts0=50, explicit=True, monotone=False)
+    elif kind == "Hbig":
+        # one key written more often than the search limit, nothing else: class of finding F18b
+        n = rng.choice([1, 2])
+        ops, ts = [], 0
+        for i in range(rng.randint(REV_LIMIT + 2, REV_LIMIT + 30)):
+            ts += 10
+            ops.append("A k0 %s %s %d -" % (rng.choice("MMMR"), g_tags(rng, ts), ts))
+            if i > REV_LIMIT - 5 and rng.random() < 0.4:
+                ops.append("Q - 0")
+        ops.append("Q - 0")
     elif kind == "HFmrk":
         n = rng.choice([2, 3])
         ops, _ = g_ops(rng, n, nk, rng.randint(1, 8), 0.5, True)
@@ -222,7 +244,7 @@ class C18(vlib.Spec):
     theorems = []  # filled below
     go_driver = "c18"
     lean_driver = "C18"
-    counts = {"quick": 4000, "thorough": 60000}
+    counts = {"quick": 4000, "thorough": 40000}
     trusted_base = [
         "Lean 4 kernel",
         "correspondence check: Go driver hooks/banyand/internal/verifdrv/c18 (real propertyServer + listeners + bluge shards) vs lean_exe drv_c18, exact on canonical output",
@@ -246,6 +268,25 @@ class C18(vlib.Spec):
 
     extract_also = []
 
+    def __init__(self):
+        self.cnt = {}
+
+    def note(self, key, n=1):
+        self.cnt[key] = self.cnt.get(key, 0) + n
+
+    def extra(self, R, tier, rng):
+        for k, v in sorted(self.cnt.items()):
+            R.count(k, v)
+
+    def directed(self, rng, seeds, n):
+        """when an obligation broke without an oracle violation: a bounded search among the fault-heavy kinds"""
+        out = list(seeds[:50])
+        for _ in range(min(700, max(100, n // 60))):
+            out.append(g_history(rng, rng.choice(["Hflt", "Hconv", "Hconv", "Hmap"])))
+        for _ in range(2000):
+            out.append(g_dedup(rng))
+        return out
+
     def cases(self, rng, n):
         nh = max(20, n // 5)
         out = []
@@ -253,6 +294,8 @@ class C18(vlib.Spec):
         for kind, frac in mix:
             for _ in range(max(2, int(nh * frac))):
                 out.append(g_history(rng, kind))
+        for _ in range(1 if n < 20000 else 4):
+            out.append(g_history(rng, "Hbig"))
         while len(out) < n:
             out.append(g_dedup(rng))
         return out
@@ -301,8 +344,8 @@ class C18(vlib.Spec):
             else:
                 self.oracle_history(line, g)
         except Violation as v:
-            if v.key == "F18a":
-                return ("known", "F18a", str(v))
+            if v.key in ("F18a", "F18b"):
+                return ("known", v.key, str(v))
             return ("violation", str(v))
         except (ValueError, IndexError, KeyError) as e:
             return ("violation", "unparsable implementation output (%s): %s" % (e, g[:300]))
@@ -330,6 +373,7 @@ class C18(vlib.Spec):
                 if int(rev) == best[k][0]:
                     nodes.setdefault(k, set()).add(node)
         want = {k: (v[0], "D" if v[1] > 0 else "L", "+".join(sorted(nodes[k]))) for k, v in best.items()}
+        self.note("dd with equal-revision live/deleted tie" if tie else "dd without tie")
         m = re.match(r"simple=(\S+) sorted=(\S+)$", g)
         if not m:
             raise ValueError("dd output")
@@ -382,6 +426,10 @@ class C18(vlib.Spec):
             except Violation as v:
                 if v.key is not None and v.key != "F18a" and divergent(state, v.key, v.reps if v.reps is not None else range(n)):
                     raise Violation("replicas disagree on the deletion of the newest revision of %s; %s" % (v.key, v), "F18a")
+                big = [(r, k, len(d)) for r in range(n) for k, d in state[r].items() if len(d) >= REV_LIMIT]
+                if big:
+                    raise Violation("replica %d stores %d revisions (tombstones included) of %s, searches are limited to %d; %s"
+                                    % (big[0][0], big[0][2], big[0][1], REV_LIMIT, v), "F18b")
                 raise Violation(str(v))
             # reference map (the property's own statement) on fault-free histories with a strictly increasing clock
             if o[0] in "AT":
@@ -407,6 +455,9 @@ class C18(vlib.Spec):
                 e_state = after
             if o[0] == "F" and e_state is not None:
                 self.check_converged(e_state, after, n, where)
+                self.note("convergence assertions")
+            if o[0] in "ATDQORG" and any(divergent(state, k, range(n)) for k in set().union(*[set(x) for x in state])):
+                self.note("ops on a state where replicas disagree on a deletion (F18a class)")
             state = after
 
     @staticmethod
@@ -451,6 +502,19 @@ class C18(vlib.Spec):
     def check_op(self, o, res, before, after, n, where, explicit, last_ts):
         up = self.up_of(o, n)
         down = [r for r in range(n) if r not in up]
+        self.note("op:" + o[0])
+        if down:
+            self.note("op:%s with unreachable replicas" % o[0])
+        if o[0] in "RG":
+            self.note("%s result %s" % (o[0], re.sub(r"n\d+", "n", res[2:])))
+        elif o[0] in "AT":
+            self.note("apply %s -> %s" % ("merge" if o[2] == "M" else "replace", re.sub(r",n\d+", "", res[2:])))
+        elif o[0] == "D":
+            self.note("delete -> " + res[2:])
+        elif o[0] in "QO" and not res.endswith("ERR"):
+            self.note("query with read-repair tasks" if not res.endswith(",rq0") else "query without read-repair tasks")
+        elif o[0] == "M":
+            self.note("merkle " + re.sub(r",leaves.*", "", res[2:]))
 
         def unchanged(reps, keys=None):
             for r in reps:
@@ -625,6 +689,14 @@ class C18(vlib.Spec):
             return line
         f = line.split(" | ")
         head, ops = f[0], f[1:]
+
+        def fails(ln):
+            # the unfixed code is nondeterministic on F18a inputs (map iteration order): vlib's predicate evaluates the
+            # oracle twice and trips when the two runs differ
+            try:
+                return still_fails(ln)
+            except TypeError:
+                return False
         changed = True
         budget = 40
         while changed and budget > 0:
@@ -635,7 +707,7 @@ class C18(vlib.Spec):
                 if budget <= 0:
                     break
                 ln = " | ".join([head] + cand)
-                if cand and still_fails(ln):
+                if cand and fails(ln):
                     ops = cand
                     changed = True
         return " | ".join([head] + ops)
@@ -643,4 +715,11 @@ class C18(vlib.Spec):
 
 SPEC = C18()
 SPEC.theorems = ["Banyan.C18." + t for t in [
-]] + ["Banyan.Tie.C18." + t for t in []]
+    "mergeTags_lookup", "mergeTags_order", "mergeTags_nodup", "apply_spec", "apply_response",
+    "map_refinement", "modRevision_strict", "clock_tie_loses_property", "clock_skew_loses_property",
+    "repair_join", "repair_monotone", "repair_never_replaces_newer_or_equal", "repair_idempotent", "repair_commutative",
+    "gossipLeaf_spec", "gossip_converges", "gossip_converges_docs",
+    "dedup_spec", "dedup_spec_sorted", "dedup_spec_sorted_good",
+    "repairLegacy_resurrects", "repairLegacy_not_commutative", "repairLegacy_duplicates_id", "simpleDedupLegacy_order_dependent",
+]] + ["Banyan.Tie.C18." + t for t in [
+    "gossip_limit_tie", "repair_limit_tie", "query_limit_tie", "repair_tiebreak_tie", "repair_skip_tie", "liaison_order_tie", "doc_id_tie"]]
